@@ -8,6 +8,7 @@ def need : JV → Nat
   | .null => 1
   | .bool _ => 1
   | .int _ => 1
+  | .float _ => 1
   | .str _ => 1
   | .arr xs => (match xs with | .nil => 1 | .cons v vs => 1 + need v + needTail vs)
   | .obj ms => (match ms with | .nil => 1 | .cons _ v ms => 1 + need v + needMTail ms)
@@ -58,9 +59,9 @@ theorem parse_render (o : Opts) : ∀ (v : JV) (lvl f : Nat) (rest : Str), v.ok 
         · rw [h, natDigits_zero]; rfl
         · obtain ⟨d, ds, e, h1, h2⟩ := natDigits_head _ h
           rw [e]; simp [headIs]; omega
-      rw [parseV_neg f _ hh (parseNat_natDigits _ rest ht)]
+      rw [parseV_neg f _ hh, parseNumber_int true _ rest ht]
       have : -(n.natAbs : Int) = n := by omega
-      rw [this]
+      simp only [if_true, this]
     · rename_i hn
       have hst := starts_encInt n
       simp only [encInt, if_neg hn] at hst
@@ -69,12 +70,39 @@ theorem parse_render (o : Opts) : ∀ (v : JV) (lvl f : Nat) (rest : Str), v.ok 
         | nil => obtain ⟨c, t, e, _⟩ := hst; rw [hnd] at e; cases e
         | cons d ds => exact ⟨d, ds, rfl, natDigits_digits n.toNat d (by rw [hnd]; simp)⟩
       obtain ⟨d, ds, e, hdig⟩ := hd
-      have hp := parseNat_natDigits n.toNat rest ht
+      have hp := parseNumber_int false n.toNat rest ht
       rw [e] at hp ⊢
       rw [List.cons_append] at hp ⊢
-      rw [parseV_digit f d _ hdig hp]
+      rw [parseV_digit f d _ hdig, hp]
       have : (n.toNat : Int) = n := by omega
-      rw [this]
+      simp only [Bool.false_eq_true, if_false, this]
+  | .float ft, lvl, f, rest, hok, hf, ht => by
+    obtain ⟨f, rfl⟩ : ∃ f', f = f' + 1 := ⟨f - 1, by simp [need] at hf; omega⟩
+    simp only [JV.ok] at hok
+    have hp := parseNumber_float ft hok rest ht
+    simp only [render, FT.text]
+    cases hneg : ft.neg
+    · simp only [hneg, Bool.false_eq_true, if_false, List.nil_append] at hp ⊢
+      obtain ⟨d, t, e, hdig⟩ : ∃ d t, natDigits ft.ip = d :: t ∧ isDigit d = true := by
+        have hst := starts_natDigits ft.ip []
+        rw [List.append_nil] at hst
+        obtain ⟨c, t, e, _⟩ := hst
+        exact ⟨c, t, e, natDigits_digits ft.ip c (by rw [e]; simp)⟩
+      rw [e] at hp ⊢
+      simp only [List.cons_append] at hp ⊢
+      rw [parseV_digit f d _ hdig]
+      exact hp
+    · simp only [hneg, if_true, List.cons_append, List.nil_append] at hp ⊢
+      have hh : headIs 73 (natDigits ft.ip ++ ((if ft.frac = [] then [] else 46 :: ft.frac) ++ expText ft.expo) ++ rest) = false := by
+        have hst := starts_natDigits ft.ip []
+        rw [List.append_nil] at hst
+        obtain ⟨c, t, e, _⟩ := hst
+        have hdig := natDigits_digits ft.ip c (by rw [e]; simp)
+        rw [e]
+        simp only [isDigit, Bool.and_eq_true, decide_eq_true_eq] at hdig
+        simp [headIs]; omega
+      rw [parseV_neg f _ hh]
+      exact hp
   | .str s, lvl, f, rest, hok, hf, _ => by
     obtain ⟨f, rfl⟩ : ∃ f', f = f' + 1 := ⟨f - 1, by simp [need] at hf; omega⟩
     simp only [JV.ok] at hok
@@ -203,6 +231,10 @@ theorem need_le (o : Opts) : ∀ (v : JV) (lvl : Nat), need v ≤ (render o lvl 
   | .bool true, _ => by simp [need, render]
   | .bool false, _ => by simp [need, render]
   | .int n, _ => by simp only [need, render]; exact encInt_len n
+  | .float f, _ => by
+    simp only [need, render, FT.text, List.length_append]
+    have := natDigits_ne_nil f.ip
+    omega
   | .str s, _ => by simp [need, render, encStr]
   | .arr .nil, _ => by simp [need, render]
   | .arr (.cons v vs), lvl => by
@@ -294,6 +326,36 @@ theorem encInt_ascii (n : Int) : Ascii (encInt n) := by
   · exact ascii_cons (by unfold asciiC; omega) (hd _)
   · exact hd _
 
+/-- a float text whose digits are digits is ASCII (any float text of the domain is) -/
+theorem ftext_ascii_of (f : FT) (h : f.ok = true) : Ascii f.text := by
+  obtain ⟨neg, ip, fr, ex⟩ := f
+  simp only [FT.ok, Bool.and_eq_true, Bool.or_eq_true, List.all_eq_true] at h
+  have hdig : ∀ m, Ascii (natDigits m) := by
+    intro m c hc
+    have := natDigits_digits m c hc
+    simp [isDigit] at this; unfold asciiC; omega
+  have hds : ∀ ds : List Nat, (∀ d ∈ ds, isDigit d = true) → Ascii ds := by
+    intro ds hd c hc
+    have := hd c hc
+    simp [isDigit] at this; unfold asciiC; omega
+  unfold FT.text
+  refine ascii_append (by split; exact ascii_cons (by unfold asciiC; omega) ascii_nil; exact ascii_nil) (ascii_append (hdig _) (ascii_append ?_ ?_))
+  · split
+    · exact ascii_nil
+    · exact ascii_cons (by unfold asciiC; omega) (hds _ h.1.2)
+  · cases ex with
+    | none => exact ascii_nil
+    | some t =>
+      obtain ⟨e, sg, ds⟩ := t
+      simp only [Bool.and_eq_true, Bool.or_eq_true, beq_iff_eq, List.all_eq_true] at h
+      obtain ⟨_, ⟨⟨he, hsg⟩, _⟩, hdd⟩ := h
+      simp only [expText]
+      refine ascii_cons (by rcases he with rfl | rfl <;> (unfold asciiC; omega)) (ascii_append ?_ (hds _ hdd))
+      rcases hsg with (rfl | rfl) | rfl
+      · exact ascii_nil
+      · exact ascii_cons (by unfold asciiC; omega) ascii_nil
+      · exact ascii_cons (by unfold asciiC; omega) ascii_nil
+
 theorem gap_ascii (L : Layout) (k : Nat) : Ascii (L.gap k) := by
   intro c hc
   have := allWs_gap L k c hc
@@ -312,34 +374,39 @@ theorem sgap_ascii (L : Layout) (k : Nat) : Ascii (L.sgap k) := by
   | compact => simp [Layout.sgap] at hc; subst hc; unfold asciiC; omega
 
 mutual
-theorem render_ascii (L : Layout) : ∀ (v : JV) (lvl : Nat), Ascii (render ⟨L, true⟩ lvl v)
-  | .null, _ => by simp only [render]; intro c hc; simp at hc; unfold asciiC; omega
-  | .bool true, _ => by simp only [render]; intro c hc; simp at hc; unfold asciiC; omega
-  | .bool false, _ => by simp only [render]; intro c hc; simp at hc; unfold asciiC; omega
-  | .int n, _ => by simp only [render]; exact encInt_ascii n
-  | .str s, _ => by simp only [render]; exact encStr_ascii s
-  | .arr .nil, _ => by simp only [render]; intro c hc; simp at hc; unfold asciiC; omega
-  | .arr (.cons v vs), lvl => by
+theorem render_ascii (L : Layout) : ∀ (v : JV) (lvl : Nat), v.ok = true → Ascii (render ⟨L, true⟩ lvl v)
+  | .null, _, _ => by simp only [render]; intro c hc; simp at hc; unfold asciiC; omega
+  | .bool true, _, _ => by simp only [render]; intro c hc; simp at hc; unfold asciiC; omega
+  | .bool false, _, _ => by simp only [render]; intro c hc; simp at hc; unfold asciiC; omega
+  | .int n, _, _ => by simp only [render]; exact encInt_ascii n
+  | .float f, _, h => by simp only [render]; exact ftext_ascii_of f (by simpa [JV.ok] using h)
+  | .str s, _, _ => by simp only [render]; exact encStr_ascii s
+  | .arr .nil, _, _ => by simp only [render]; intro c hc; simp at hc; unfold asciiC; omega
+  | .arr (.cons v vs), lvl, h => by
+    simp only [JV.ok, JVs.ok, Bool.and_eq_true] at h
     simp only [render]
     exact ascii_cons (by unfold asciiC; omega) (ascii_append (ascii_append (ascii_append (ascii_append (gap_ascii _ _)
-      (render_ascii L v _)) (renderItems_ascii L vs _)) (gap_ascii _ _)) (ascii_cons (by unfold asciiC; omega) ascii_nil))
-  | .obj .nil, _ => by simp only [render]; intro c hc; simp at hc; unfold asciiC; omega
-  | .obj (.cons k v ms), lvl => by
+      (render_ascii L v _ h.1)) (renderItems_ascii L vs _ h.2)) (gap_ascii _ _)) (ascii_cons (by unfold asciiC; omega) ascii_nil))
+  | .obj .nil, _, _ => by simp only [render]; intro c hc; simp at hc; unfold asciiC; omega
+  | .obj (.cons k v ms), lvl, h => by
+    simp only [JV.ok, JMs.ok, Bool.and_eq_true] at h
     simp only [render]
     exact ascii_cons (by unfold asciiC; omega) (ascii_append (ascii_append (ascii_append (ascii_append (ascii_append (gap_ascii _ _)
-      (encStr_ascii k)) (ascii_cons (by unfold asciiC; omega) (ascii_cons (by unfold asciiC; omega) (render_ascii L v _))))
-      (renderMembers_ascii L ms _)) (gap_ascii _ _)) (ascii_cons (by unfold asciiC; omega) ascii_nil))
-theorem renderItems_ascii (L : Layout) : ∀ (vs : JVs) (lvl : Nat), Ascii (renderItems ⟨L, true⟩ lvl vs)
-  | .nil, _ => by simp only [renderItems]; exact ascii_nil
-  | .cons v vs, lvl => by
+      (encStr_ascii k)) (ascii_cons (by unfold asciiC; omega) (ascii_cons (by unfold asciiC; omega) (render_ascii L v _ h.1.1.2))))
+      (renderMembers_ascii L ms _ h.1.2)) (gap_ascii _ _)) (ascii_cons (by unfold asciiC; omega) ascii_nil))
+theorem renderItems_ascii (L : Layout) : ∀ (vs : JVs) (lvl : Nat), vs.ok = true → Ascii (renderItems ⟨L, true⟩ lvl vs)
+  | .nil, _, _ => by simp only [renderItems]; exact ascii_nil
+  | .cons v vs, lvl, h => by
+    simp only [JVs.ok, Bool.and_eq_true] at h
     simp only [renderItems]
-    exact ascii_cons (by unfold asciiC; omega) (ascii_append (ascii_append (sgap_ascii _ _) (render_ascii L v _)) (renderItems_ascii L vs _))
-theorem renderMembers_ascii (L : Layout) : ∀ (ms : JMs) (lvl : Nat), Ascii (renderMembers ⟨L, true⟩ lvl ms)
-  | .nil, _ => by simp only [renderMembers]; exact ascii_nil
-  | .cons k v ms, lvl => by
+    exact ascii_cons (by unfold asciiC; omega) (ascii_append (ascii_append (sgap_ascii _ _) (render_ascii L v _ h.1)) (renderItems_ascii L vs _ h.2))
+theorem renderMembers_ascii (L : Layout) : ∀ (ms : JMs) (lvl : Nat), ms.ok = true → Ascii (renderMembers ⟨L, true⟩ lvl ms)
+  | .nil, _, _ => by simp only [renderMembers]; exact ascii_nil
+  | .cons k v ms, lvl, h => by
+    simp only [JMs.ok, Bool.and_eq_true] at h
     simp only [renderMembers]
     exact ascii_cons (by unfold asciiC; omega) (ascii_append (ascii_append (ascii_append (sgap_ascii _ _) (encStr_ascii k))
-      (ascii_cons (by unfold asciiC; omega) (ascii_cons (by unfold asciiC; omega) (render_ascii L v _)))) (renderMembers_ascii L ms _))
+      (ascii_cons (by unfold asciiC; omega) (ascii_cons (by unfold asciiC; omega) (render_ascii L v _ h.1.2)))) (renderMembers_ascii L ms _ h.2))
 end
 
 end Uberjob.Json
